@@ -48,7 +48,14 @@ def gen(rng: Any, tier: str, i: int) -> Any:
         groups = [batdata.gen_group(rng, mode) for _ in range(ng)]
         if all(batdata.component_ok(c) for g in groups for c in g["bats"] + g["invs"]):
             irregular = (rng.random() < 0.3 and 2 <= len(groups[0]["bats"]) <= 3 and len(groups[0]["invs"]) >= 2)
-            return {"groups": groups, "pseed": rng.randrange(1 << 30), "irregular": irregular}
+            case = {"groups": groups, "pseed": rng.randrange(1 << 30), "irregular": irregular}
+            multi = [g for g, grp in enumerate(groups) if len(grp["bats"]) >= 2]
+            if multi and not irregular and rng.random() < 0.25:
+                # one battery of a group reports a state in which it does not work (relay open) while its data keeps
+                # arriving: the group stays usable through its other batteries
+                g = rng.choice(multi)
+                case["not_working"] = [g, rng.randrange(len(groups[g]["bats"]))]
+            return case
     return None
 
 
@@ -98,7 +105,10 @@ def _advertised(case: dict[str, Any]) -> Any:
                 M.ACTIVE_POWER_INCLUSION_LOWER_BOUND: i["il"], M.ACTIVE_POWER_EXCLUSION_LOWER_BOUND: i["el"],
                 M.ACTIVE_POWER_EXCLUSION_UPPER_BOUND: i["eu"], M.ACTIVE_POWER_INCLUSION_UPPER_BOUND: i["iu"]})
     calc = PowerBoundsCalculator(bats)
-    return calc.calculate(metrics, set(bats))
+    working = set(bats)
+    if case.get("not_working"):
+        working.discard(_bid(case, *case["not_working"]))
+    return calc.calculate(metrics, working)
 
 
 async def _drive(case: dict[str, Any], probes: list[float], out: dict[str, Any]) -> None:
@@ -121,7 +131,14 @@ async def _drive(case: dict[str, Any], probes: list[float], out: dict[str, Any])
     now = datetime.now(timezone.utc)
     for g, grp in enumerate(case["groups"]):
         for j, b in enumerate(grp["bats"]):
-            await api.feed(_bid(case, g, j), batdata.mk_battery(_bid(case, g, j), b, now))
+            msg = batdata.mk_battery(_bid(case, g, j), b, now)
+            if case.get("not_working") == [g, j]:
+                import dataclasses
+
+                from frequenz.client.microgrid import BatteryRelayState
+
+                msg = dataclasses.replace(msg, relay_state=BatteryRelayState.OPENED)
+            await api.feed(_bid(case, g, j), msg)
         for j, i in enumerate(grp["invs"]):
             await api.feed(_iid(case, g, j), batdata.mk_inverter(_iid(case, g, j), i, now))
     await asyncio.sleep(0.5)
@@ -151,6 +168,8 @@ def check(case: dict[str, Any], rec: Any) -> None:
     sb = _advertised(case)
     if case.get("irregular"):
         rec.bucket("irregular-group(batteries with different inverter sets)")
+    if case.get("not_working"):
+        rec.bucket("group-with-one-battery-not-working")
     if sb.inclusion_bounds is None or sb.exclusion_bounds is None:
         rec.violation("no-bounds-advertised-for-complete-data", {"sb": repr(sb)})
         return
